@@ -477,6 +477,52 @@ def r7(F, rep):
         len(rets), len(rec)), bool(rets) and bool(rec) and before, func=e.q)
 
 
+def r8(F, rep):
+    rep.rule("C13-R8", "deleting a parent leaves its children as they would be without it: biases can be deleted while their "
+                       "variables survive, so a feature of the variable that (a) a bias requires of its children, (b) is dynamic "
+                       "(switched off automatically when its reference count reaches zero) and (c) the variable also enables for "
+                       "itself at top level while it is initialised -- holding no reference -- is switched off by the deletion of "
+                       "the last bias although the variable would have it on had the bias never existed")
+    bt = F.one("colvarbias::init_dependencies")
+    ct = F.one("colvar::init_dependencies")
+    child_req = set()
+    for c in X.calls(bt):
+        if X.callee_name(c) == "require_feature_children":
+            for a in X.call_args(c)[1:]:
+                n0 = arg_enum(a)[0]
+                if n0:
+                    child_req.add(n0)
+    dynamic = set()
+    for c in X.calls(ct):
+        if X.callee_name(c) == "init_feature":
+            a = X.call_args(c)
+            if len(a) >= 3 and "f_type_dynamic" in X.key(a[2], ct):
+                dynamic.add(arg_enum(a[0])[0])
+    self_enabled = {}
+    for g in F.funcs.values():
+        if g.cls == "colvar" and (g.name.startswith("init") or g.ctor):
+            for c in X.calls(g):
+                if c["k"] == "CXXMemberCallExpr" and X.callee_name(c) == "enable" and c.get("cq") == "colvardeps::enable" and \
+                        (X.receiver(c) is None or X.strip(X.receiver(c))["k"] == "CXXThisExpr"):
+                    a = X.call_args(c)
+                    n0 = arg_enum(a[0])[0] if a else None
+                    # top level: the toplevel argument is defaulted (true)
+                    top = len([x for x in a if x["k"] != "CXXDefaultArgExpr"]) < 3
+                    if n0 and top:
+                        self_enabled[n0] = (g, c)
+    if not child_req:
+        raise AnalysisBroken("colvarbias::init_dependencies: no require_feature_children found")
+    n = 0
+    for ft in sorted(child_req):
+        n += 1
+        bad = ft in dynamic and ft in self_enabled
+        loc = self_enabled[ft][0].loc(self_enabled[ft][1]) if ft in self_enabled else ct.loc()
+        rep.add("C13-R8", "colvarbias->colvar|%s" % ft, loc, "feature %s of a variable: required by biases of their children, %s, %s" % (
+            ft, "dynamic" if ft in dynamic else "not dynamic", "enabled by the variable itself at top level in %s" % self_enabled[ft][0].q if ft in self_enabled else "not self-enabled"),
+            not bad, detail="decr_ref_count() auto-disables it when the last bias is deleted: the variable stops being computed", func="colvar")
+    rep.count("bias_children_requirements", n)
+
+
 def run(F, rep, tier):
     r1(F, rep)
     r2(F, rep)
@@ -485,3 +531,4 @@ def run(F, rep, tier):
     r5(F, rep)
     r6(F, rep)
     r7(F, rep)
+    r8(F, rep)
